@@ -5,7 +5,9 @@
       [wf16 H]          no stored reaction is empty or has an empty rule name; every species occurring in a reaction is
                         registered and has a non-empty index entry; [order] is a duplicate-free enumeration of the ids;
                         molecule labels only for registered species.  Implied by the store invariant of C15 ([C16_inv_wf]).
-      [strings_domain]  rules non-empty and blank-free, species labels in [A-Za-z][A-Za-z0-9_]*.
+      [strings_domain]  rules non-empty and blank-free; species labels = a letter followed by any characters except white
+                        space and the format's own separators + * | >  (the parser's pattern "digits, letter, anything"):
+                        identifiers, formulae and SMILES-like labels, e.g. CC(=O)O, C#C, Fe(OH)3 ([ex_label_domain]).
       [rxns_of H]       the stored reactions (rule, reactants, products) as a list; multiset equality is [≡ₚ]. *)
 From stdpp Require Import gmap strings sets.
 From SK Require Import lib.Tok model.C15_Model proof.C15_Proof model.C16_Model proof.C16_Defs proof.C16_Chars proof.C16_Str proof.C16_Sg proof.C16_BipA proof.C16_BipB proof.C16_Reach.
@@ -77,7 +79,8 @@ Theorem C16_strings_roundtrip : ∀ (H : net) (include_id sort prefer_suffix : b
 Proof. exact strings_roundtrip. Qed.
 Print Assumptions C16_strings_roundtrip.
 
-(** Outside the label domain [A-Za-z][A-Za-z0-9_]* the string round trip fails: "2_x" is read as one species. *)
+(** Outside the label domain the string round trip fails: a label must start with a letter — coefficient 2 on "_x"
+    prints as "2_x", which is read as ONE species (likewise "2[OH-]"; '+' as in "Na+" splits the term). *)
 Theorem C16_label_domain_refuted :
   ∃ H : net, (rxns_to_hypergraph (hypergraph_to_rxn_strings H true false true) "r" true false).2 = None
              ∧ ¬ rxns_of (rxns_to_hypergraph (hypergraph_to_rxn_strings H true false true) "r" true false).1 ≡ₚ rxns_of H.
